@@ -185,6 +185,20 @@ impl<'a> Tape<'a> {
     }
 }
 
+/// A failure that cannot be reproduced when its case is run again on its own is not a
+/// violation: say what tripped, write the evidence, exit 2.
+fn inconclusive_exit(ev: &Evidence, case: &J, original: &str) -> ! {
+    eprintln!(
+        "INCONCLUSIVE: a case was judged failing during the campaign but did not fail again when re-run on its own (3 attempts); original judgement: {} ; case: {}",
+        truncate(original, 1500),
+        truncate(&case.to_string(), 600)
+    );
+    ev.write();
+    use std::io::Write;
+    let _ = std::io::stdout().flush();
+    std::process::exit(2)
+}
+
 fn find_sub(h: &[u8], n: &[u8]) -> Option<usize> {
     if n.is_empty() {
         return Some(0);
@@ -674,7 +688,14 @@ fn c20_case_check(case: &J, kf_on: bool) -> Result<(bool, bool), String> {
     let info = StreamInfo { stream, expected, nt: Vec::new() };
     let live = case.get("live").and_then(|l| l.as_bool()).unwrap_or(false);
     if live {
-        return c20_live_one(&info.stream, &cuts, kf_on).map(|k| (true, k));
+        return match c20_live_one(&info.stream, &cuts, kf_on) {
+            Ok(k) => Ok((true, k)),
+            Err(LiveErr::Violation(m)) => Err(m),
+            Err(LiveErr::Inconclusive(m)) => {
+                eprintln!("INCONCLUSIVE: {m}");
+                std::process::exit(2)
+            }
+        };
     }
     match c20_split(&info, &cuts, kf_on) {
         SplitRes::Ok => Ok((!cuts.is_empty(), false)),
@@ -825,7 +846,8 @@ fn c20(args: &Args) {
                 report_violation(&mut ev, &json!({"stream": bj(&info.stream), "cuts": min, "frames": frames.iter().map(gf_json).collect::<Vec<_>>()}), &m2);
             }
             None => {
-                report_violation(&mut ev, &json!({"stream": bj(&info.stream), "cuts": [], "frames": frames.iter().map(gf_json).collect::<Vec<_>>()}), &msg);
+                // neither the shrunk nor the re-evaluated case fails any more
+                inconclusive_exit(&ev, &json!({"stream": bj(&info.stream), "frames": frames.iter().map(gf_json).collect::<Vec<_>>()}), &msg);
             }
         }
         finish(&ev);
@@ -991,7 +1013,18 @@ fn c20_cut_triggers_kf(stream: &[u8], cuts: &[usize]) -> bool {
 }
 
 /// one pipeline on the live server. Ok(true) = skipped as known finding, Ok(false) = held.
-fn c20_live_one(stream: &[u8], cuts: &[usize], kf_on: bool) -> Result<bool, String> {
+enum LiveErr {
+    /// the bytes on the wire are wrong / the connection was closed early
+    Violation(String),
+    /// nothing wrong was seen, but the run could not be completed (stall, connect failure)
+    Inconclusive(String),
+}
+
+/// Verdict rule of the live pipelines: the reply bytes must at all times be a prefix of the
+/// (unique) encoding of the expected replies. A deviating byte, end of stream before all
+/// replies, or surplus bytes is a violation. A correct prefix followed by 60 s without a
+/// byte on an open connection, or a failing connect/write, is inconclusive (exit 2).
+fn c20_live_one(stream: &[u8], cuts: &[usize], kf_on: bool) -> Result<bool, LiveErr> {
     use std::io::{Read, Write};
     let frames = model_loop(&[stream], false);
     let mut expected = Vec::new();
@@ -1014,64 +1047,85 @@ fn c20_live_one(stream: &[u8], cuts: &[usize], kf_on: bool) -> Result<bool, Stri
         return Ok(true);
     }
     let port = live_server_port();
-    let mut s = std::net::TcpStream::connect(("127.0.0.1", port)).map_err(|e| format!("connect: {e}"))?;
+    let mut exp_bytes = Vec::new();
+    for r in &expected {
+        mv_encode(r, &mut exp_bytes, &mut Vec::new());
+    }
+    let mut s = std::net::TcpStream::connect(("127.0.0.1", port)).map_err(|e| LiveErr::Inconclusive(format!("connect to the loopback server: {e}")))?;
     s.set_nodelay(true).ok();
     s.set_read_timeout(Some(std::time::Duration::from_millis(200))).ok();
     let chunks = chunks_of(stream, cuts);
     for (i, c) in chunks.iter().enumerate() {
-        s.write_all(c).map_err(|e| format!("write: {e}"))?;
+        s.write_all(c).map_err(|e| LiveErr::Inconclusive(format!("write to the loopback server: {e}")))?;
         s.flush().ok();
         if i + 1 < chunks.len() {
             std::thread::sleep(std::time::Duration::from_millis(2));
         }
     }
-    // read until the expected number of replies parsed, then a short grace period for extras
+    // read while the bytes are a proper prefix of the expected reply stream
     let mut got: Vec<u8> = Vec::new();
-    let mut idle = 0;
-    let mut parsed: Vec<MV>;
+    let mut idle = 0u32;
+    let mut eof = false;
     loop {
         let mut tmp = [0u8; 4096];
         match s.read(&mut tmp) {
-            Ok(0) => break,
+            Ok(0) => {
+                eof = true;
+                break;
+            }
             Ok(k) => {
                 got.extend_from_slice(&tmp[..k]);
                 idle = 0;
             }
-            Err(_) => idle += 1,
-        }
-        parsed = Vec::new();
-        let mut pos = 0;
-        while pos < got.len() {
-            match strict_parse(&got, &mut pos, 0) {
-                Ok(v) => parsed.push(v),
-                Err(_) => break,
+            Err(e) if e.kind() == std::io::ErrorKind::WouldBlock || e.kind() == std::io::ErrorKind::TimedOut || e.kind() == std::io::ErrorKind::Interrupted => idle += 1,
+            Err(_) => {
+                eof = true;
+                break;
             }
         }
-        if parsed.len() >= expected.len() && idle >= 1 {
-            break;
+        if !exp_bytes.starts_with(&got) {
+            break; // wrong or surplus bytes: no need to wait for more
         }
-        if idle >= 25 {
-            break; // 5 s without a byte
+        if got.len() == exp_bytes.len() && idle >= 1 {
+            break; // complete, and a grace read brought nothing more
         }
+        if idle >= 300 {
+            break; // 60 s without a byte
+        }
+    }
+    if got == exp_bytes {
+        return Ok(false);
+    }
+    if exp_bytes.starts_with(&got) && !eof {
+        return Err(LiveErr::Inconclusive(format!(
+            "live server: pipeline {:?} cut at {:?}: {} of {} reply bytes arrived, all correct, then nothing for 60 s on an open connection",
+            String::from_utf8_lossy(stream),
+            cuts,
+            got.len(),
+            exp_bytes.len()
+        )));
     }
     let mut parsed = Vec::new();
     let mut pos = 0;
+    let mut tail = String::new();
     while pos < got.len() {
         match strict_parse(&got, &mut pos, 0) {
             Ok(v) => parsed.push(v),
-            Err(e) => return Err(format!("live server: reply stream {:?} is not a sequence of frames: {e}", String::from_utf8_lossy(&got))),
+            Err(e) => {
+                tail = format!(" followed by bytes that are not a frame ({e})");
+                break;
+            }
         }
     }
-    if parsed != expected {
-        return Err(format!(
-            "live server: pipeline {:?} written in chunks cut at {:?} was answered {} ; expected one reply per command, in order: {}",
-            String::from_utf8_lossy(stream),
-            cuts,
-            J::Array(parsed.iter().map(mv_json).collect()),
-            J::Array(expected.iter().map(mv_json).collect())
-        ));
-    }
-    Ok(false)
+    Err(LiveErr::Violation(format!(
+        "live server: pipeline {:?} written in chunks cut at {:?} was answered {}{}{} ; expected one reply per command, in order: {}",
+        String::from_utf8_lossy(stream),
+        cuts,
+        J::Array(parsed.iter().map(mv_json).collect()),
+        tail,
+        if eof { " and the connection was closed" } else { "" },
+        J::Array(expected.iter().map(mv_json).collect())
+    )))
 }
 
 fn c20_live(args: &Args, ev: &mut Evidence, kf_on: bool) {
@@ -1113,12 +1167,24 @@ fn c20_live(args: &Args, ev: &mut Evidence, kf_on: bool) {
                 ev.class("live_prescreened_known_finding");
             }
             Ok(false) => {}
-            Err(m) => {
-                // minimise the cut set (each trial is a fresh connection)
+            Err(LiveErr::Inconclusive(m)) => {
+                eprintln!("INCONCLUSIVE: {m}");
+                ev.write();
+                std::process::exit(2);
+            }
+            Err(LiveErr::Violation(m)) => {
                 ev.frozen = true;
-                let fails = |c: &[usize]| c20_live_one(&stream, c, kf_on).is_err();
-                let min = shrink_vec(cuts.clone(), &fails);
-                let m2 = c20_live_one(&stream, &min, kf_on).err().unwrap_or(m);
+                let violates = |c: &[usize]| matches!(c20_live_one(&stream, c, kf_on), Err(LiveErr::Violation(_)));
+                // only a failure that shows again with the pipeline run on its own counts
+                if !(0..3).any(|_| violates(&cuts)) {
+                    inconclusive_exit(ev, &json!({"live": true, "stream": bj(&stream), "cuts": cuts}), &m);
+                }
+                // minimise the cut set (each trial is a fresh connection)
+                let min = shrink_vec(cuts.clone(), &violates);
+                let m2 = match c20_live_one(&stream, &min, kf_on) {
+                    Err(LiveErr::Violation(m2)) => m2,
+                    _ => m,
+                };
                 report_violation(ev, &json!({"live": true, "stream": bj(&stream), "cuts": min}), &m2);
                 return;
             }
@@ -1451,7 +1517,7 @@ fn c21_judge(input_len: usize, scan: &Scan, oc: &Outcome, kf: &C21Kf) -> C21Judg
             }
         }
         Outcome::Exit(77) if kf.prealloc && big_prealloc => C21Judgement::Kf("KF-C21-2"),
-        Outcome::Exit(77) => C21Judgement::Bad(format!("decode of {input_len} bytes requested more than {} B in one allocation (or 4x that live): process would abort", C21_HARD_CAP)),
+        Outcome::Exit(77) => C21Judgement::Bad(format!("decode of {input_len} bytes requested more than {} B in one allocation, or the worker's live bytes (inherited + allocated) passed 4x that: allocation cap hit (exit 77)", C21_HARD_CAP)),
         Outcome::Signal(s) if (*s == 11 || *s == 6) && kf.recursion && scan.max_depth >= 1000 => C21Judgement::Kf("KF-C21-3"),
         Outcome::Timeout => C21Judgement::Timeout,
         other => C21Judgement::Bad(format!("decode of {input_len} bytes killed the process: {} (array nesting reached {})", other.describe(), scan.max_depth)),
@@ -1683,7 +1749,9 @@ fn c21_verdict_name(v: u8) -> &'static str {
 }
 
 /// shrink a failing C21 case: fewer repeats, then fewer bytes
-fn c21_shrink(case: MCase, kf: &C21Kf) -> (MCase, String) {
+/// Ok((minimal case, message)) when the failure reproduces with the case run on its own
+/// (up to 3 attempts); Err(()) when it does not (caller reports INCONCLUSIVE).
+fn c21_shrink(case: MCase, kf: &C21Kf) -> Result<(MCase, String), ()> {
     let bad = |c: &MCase| -> Option<String> {
         match &c21_run_cases(std::slice::from_ref(c), kf)[0].1 {
             C21Judgement::Bad(m) => Some(m.clone()),
@@ -1691,7 +1759,10 @@ fn c21_shrink(case: MCase, kf: &C21Kf) -> (MCase, String) {
         }
     };
     let mut best = case;
-    let mut msg = bad(&best).unwrap_or_else(|| "failure did not reproduce in isolation".into());
+    let mut msg = match (0..3).find_map(|_| bad(&best)) {
+        Some(m) => m,
+        None => return Err(()),
+    };
     // repeats: halve while it still fails
     while best.repeat > 0 {
         let mut c = best.clone();
@@ -1719,7 +1790,7 @@ fn c21_shrink(case: MCase, kf: &C21Kf) -> (MCase, String) {
             msg = m;
         }
     }
-    (best, msg)
+    Ok((best, msg))
 }
 
 fn c21(args: &Args) {
@@ -1773,7 +1844,7 @@ fn c21(args: &Args) {
 
     let t0 = std::time::Instant::now();
     let dbg = std::env::var("VC_DEBUG").is_ok();
-    let mut failure: Option<MCase> = None;
+    let mut failure: Option<(MCase, String)> = None;
 
     // regression corpus
     for (_p, case) in corpus_cases("C21") {
@@ -1781,8 +1852,8 @@ fn c21(args: &Args) {
         ev.case();
         ev.class("corpus");
         match &c21_run_cases(std::slice::from_ref(&c), &kf)[0].1 {
-            C21Judgement::Bad(_) => {
-                failure = Some(c);
+            C21Judgement::Bad(m) => {
+                failure = Some((c, m.clone()));
                 break;
             }
             C21Judgement::Kf(id) => ev.kf_hit(id),
@@ -1852,8 +1923,8 @@ fn c21(args: &Args) {
                     ev.class("exhaustive_known_finding");
                 }
                 C21Judgement::Timeout => ev.timeouts += 1,
-                C21Judgement::Bad(_) => {
-                    failure = Some(c.clone());
+                C21Judgement::Bad(m) => {
+                    failure = Some((c.clone(), m));
                     break;
                 }
             }
@@ -1867,20 +1938,18 @@ fn c21(args: &Args) {
         use proptest::prelude::*;
         let n = args.tier.pick(6_000usize, 120_000usize);
         let tapes = generate(args.seed, n, &proptest::collection::vec(any::<u16>(), 14));
-        let cases: Vec<MCase> = tapes.iter().map(|t| c21_mutant(t)).collect();
-        if std::env::var("VC_DEBUG").ok().as_deref() == Some("classes") {
-            let mut by: std::collections::BTreeMap<&str, Vec<MCase>> = Default::default();
-            for c in &cases {
-                by.entry(c.class).or_default().push(c.clone());
+        // Cases are materialised one chunk at a time: a worker inherits the parent's live
+        // byte count, and the counting allocator's hard cap (4 x HARD_CAP live) would be hit
+        // by the inherited bytes alone if all inputs of the thorough tier (GBs) were held.
+        for tape_chunk in tapes.chunks(2000) {
+            let cases: Vec<MCase> = tape_chunk.iter().map(|t| c21_mutant(t)).collect();
+            let chunk = &cases[..];
+            let parent_live = vcheck::forkrun::LIVE.load(std::sync::atomic::Ordering::Relaxed);
+            if parent_live > C21_HARD_CAP {
+                eprintln!("INCONCLUSIVE: the harness itself holds {parent_live} live bytes; workers would start above the allocation cap");
+                ev.write();
+                std::process::exit(2);
             }
-            for (k, v) in by {
-                let t1 = std::time::Instant::now();
-                let r = c21_run_cases(&v, &kf);
-                let deaths = r.iter().filter(|x| matches!(x.1, C21Judgement::Kf(_))).count();
-                eprintln!("class {k}: {} cases, {} kf, {:?}", v.len(), deaths, t1.elapsed());
-            }
-        }
-        for chunk in cases.chunks(4000) {
             let res = c21_run_cases(chunk, &kf);
             if dbg { eprintln!("mutant chunk done {:?}", t0.elapsed()); }
             for (c, (scan, j)) in chunk.iter().zip(res) {
@@ -1904,9 +1973,9 @@ fn c21(args: &Args) {
                         ev.timeouts += 1;
                         ev.class("timeout");
                     }
-                    C21Judgement::Bad(_) => {
+                    C21Judgement::Bad(m) => {
                         if failure.is_none() {
-                            failure = Some(c.clone());
+                            failure = Some((c.clone(), m));
                         }
                     }
                 }
@@ -1922,10 +1991,17 @@ fn c21(args: &Args) {
         }
     }
 
-    if let Some(c) = failure {
+    if let Some((c, original)) = failure {
         ev.frozen = true;
-        let (min, msg) = c21_shrink(c, &kf);
-        report_violation(&mut ev, &min.json(), &msg);
+        match c21_shrink(c.clone(), &kf) {
+            Ok((min, msg)) => {
+                report_violation(&mut ev, &min.json(), &msg);
+            }
+            Err(()) => {
+                let shown = if c.input().len() <= 300 { c.json() } else { json!({"prefix": bj(&c.prefix), "repeat": c.repeat, "body_len": c.body.len(), "class": c.class}) };
+                inconclusive_exit(&ev, &shown, &original);
+            }
+        }
     }
     finish(&ev);
 }
@@ -2174,8 +2250,12 @@ fn c22_case_from(j: &J) -> (Vec<MV>, Vec<u8>) {
 }
 
 /// shrink: drop commands, then bytes of each bulk argument
-fn c22_shrink(rt: &tokio::runtime::Runtime, cmds: Vec<MV>, plant: &[u8], kf_on: bool) -> (Vec<MV>, String) {
-    let fails = |c: &[MV]| c22_check(rt, c, plant, kf_on).fail.is_some();
+/// None when the case does not fail again on its own (3 attempts)
+fn c22_shrink(rt: &tokio::runtime::Runtime, cmds: Vec<MV>, plant: &[u8], kf_on: bool) -> Option<(Vec<MV>, String)> {
+    let fails = |c: &[MV]| matches!(catch(|| c22_check(rt, c, plant, kf_on).fail.is_some()), Ok(true) | Err(_));
+    if !(0..3).any(|_| fails(&cmds)) {
+        return None;
+    }
     let mut best = shrink_vec(cmds, &fails);
     for ci in 0..best.len() {
         let n_args = match &best[ci] {
@@ -2204,8 +2284,12 @@ fn c22_shrink(rt: &tokio::runtime::Runtime, cmds: Vec<MV>, plant: &[u8], kf_on: 
             }
         }
     }
-    let msg = c22_check(rt, &best, plant, kf_on).fail.unwrap_or_else(|| "failure did not reproduce after shrinking".into());
-    (best, msg)
+    let msg = match catch(|| c22_check(rt, &best, plant, kf_on).fail) {
+        Ok(Some(m)) => m,
+        Ok(None) => return None,
+        Err(p) => format!("panic while handling the command: {p}"),
+    };
+    Some((best, msg))
 }
 
 // --- C22 live part: large replies on a real socket ---------------------------------------
@@ -2704,6 +2788,10 @@ fn c22_live(args: &Args, ev: &mut Evidence) -> Option<(Vec<LiveCmd>, String)> {
             }
             LiveVerdict::Violation(m) => {
                 ev.frozen = true;
+                // only a failure that shows again with the pipeline run on its own counts
+                if !(0..3).any(|_| matches!(c22_live_run(&cmds), LiveVerdict::Violation(_))) {
+                    inconclusive_exit(ev, &c22_live_case_json(&cmds), &m);
+                }
                 // shrink: drop commands (the closing PING stays), then halve the large sizes
                 let fails = |c: &[LiveCmd]| {
                     let mut v = c.to_vec();
@@ -2796,7 +2884,7 @@ fn c22(args: &Args) {
     }
     let kf_on = known.active("KF-C22-1");
 
-    let mut failure: Option<(Vec<MV>, Vec<u8>)> = None;
+    let mut failure: Option<(Vec<MV>, Vec<u8>, String)> = None;
     let mut run_case = |ev: &mut Evidence, class: &str, cmds: Vec<MV>, plant: &[u8]| -> bool {
         ev.cases(cmds.len() as u64);
         ev.class(class);
@@ -2815,14 +2903,14 @@ fn c22(args: &Args) {
                 if r.errors_replies > 0 {
                     ev.class_n("error_replies", r.errors_replies as u64);
                 }
-                if r.fail.is_some() {
-                    failure = Some((cmds, plant.to_vec()));
+                if let Some(m) = r.fail {
+                    failure = Some((cmds, plant.to_vec(), m));
                     return false;
                 }
                 true
             }
-            Err(_) => {
-                failure = Some((cmds, plant.to_vec()));
+            Err(p) => {
+                failure = Some((cmds, plant.to_vec(), format!("panic while handling the command: {p}")));
                 false
             }
         }
@@ -2895,10 +2983,14 @@ fn c22(args: &Args) {
     }
     drop(run_case);
 
-    if let Some((cmds, plant)) = failure {
+    if let Some((cmds, plant, original)) = failure {
         ev.frozen = true;
-        let (min, msg) = c22_shrink(&rt, cmds, &plant, kf_on);
-        report_violation(&mut ev, &c22_case_json(&min, &plant), &msg);
+        match c22_shrink(&rt, cmds.clone(), &plant, kf_on) {
+            Some((min, msg)) => {
+                report_violation(&mut ev, &c22_case_json(&min, &plant), &msg);
+            }
+            None => inconclusive_exit(&ev, &c22_case_json(&cmds, &plant), &original),
+        }
         finish(&ev);
     }
     // live part: large replies as they appear on the wire
@@ -3467,7 +3559,11 @@ fn c24(args: &Args) {
 
     if let Some((gi, resp, via, msg)) = failure {
         ev.frozen = true;
-        // shrink: smallest graph, then drop lines of the response, then characters of the tail
+        // only a failure that shows again with the case run on its own counts
+        if !(0..3).any(|_| c24_check(&mut ctx, gi, &resp, via, kf_on).fail.is_some()) {
+            inconclusive_exit(&ev, &c24_case_json(gi, &resp, via), &msg);
+        }
+        // shrink: smallest graph, then drop lines of the response
         let mut best = (gi, resp, msg);
         for g in 0..gi {
             let r = c24_check(&mut ctx, g, &best.1, via, kf_on);
